@@ -22,6 +22,7 @@ RULE = (
     '(constraint) / value != default (setter)'
     '; pass 5: one prior object registered for several parameters (by closure and by name)'
     '; pass 6: constraint bounds loaded from a state dict saved with other bounds (Interval, GreaterThan, LessThan)'
+    "; pass 8: assignments with the debug checks switched off; kernels built with the deprecated param_transform keyword"
 )
 REQUIRED = ["transform_in_bounds", "transform_monotone", "inverse_roundtrip", "setter_roundtrip", "out_of_bounds_rejected", "invariant_after_mutation", "prior_log_prob", "prior_normalised", "prior_closure_sees_constrained", "sample_from_prior_readback"]
 ASSUMPTIONS = [
